@@ -254,7 +254,7 @@ func ledgerTimeouts(c childCfg) childCfg {
 	return c
 }
 
-const stepBound = 6 * time.Second
+const stepBound = 15 * time.Second
 
 func describeScenario(cfg childCfg, seed uint64, idx int, sc *scenario) string {
 	var sb strings.Builder
@@ -463,6 +463,10 @@ func ledgerWorker(cfg childCfg, n int, seed uint64, only int) *workerOut {
 		for _, t := range tags {
 			out.kinds["mut:"+t]++
 		}
+		if len(out.fails) >= 10 {
+			out.kinds["worker-stopped-after-10-failures"]++
+			break // enough to report; every further failure costs a baseline wait and a child restart
+		}
 		ok, at := playScenario(ch, base, cfg, seed, i, &sc, tags, keymgmt, out, -1)
 		if at >= 0 {
 			all = append(all, played{sc, tags, i, at})
@@ -612,8 +616,8 @@ func parseConv(line string) (childCfg, *conv, error) {
 }
 
 func blastTiming(cfg childCfg) timing {
-	closeBound := time.Duration(max(cfg.IdleMs, cfg.ReadMs)+cfg.CheckMs)*time.Millisecond + 7*time.Second
-	return timing{resp: 9 * time.Second, close: closeBound}
+	closeBound := time.Duration(max(cfg.IdleMs, cfg.ReadMs)+cfg.CheckMs)*time.Millisecond + 10*time.Second
+	return timing{resp: 15 * time.Second, close: closeBound}
 }
 
 // judgeConv evaluates the per-connection oracle.
@@ -880,7 +884,8 @@ func main() {
 	}
 
 	configs := quickConfigs()
-	if ctx.Thorough {
+	if ctx.Thorough || os.Getenv("VERIF_C11_SMOKE") != "" {
+		// VERIF_C11_SMOKE: every configuration of the thorough tier with the budgets of the quick tier
 		configs = thoroughConfigs()
 	}
 
@@ -893,24 +898,29 @@ func main() {
 	}()
 
 	// 2. ledger + blast workers, one pair per configuration, in parallel
-	nScen := ctx.Budget(100, 4000)
+	nScen := ctx.Budget(90, 1500)
 	type job struct {
 		out *workerOut
 	}
 	var wg sync.WaitGroup
 	outs := make([]*workerOut, 2*len(configs))
+	slots := make(chan struct{}, 12) // at most 6 configurations (12 children) at a time
 	for i, cfg := range configs {
 		ls := ctx.Rng.U64()
 		bs := ctx.Rng.U64()
 		wg.Add(2)
 		go func(i int, cfg childCfg) {
 			defer wg.Done()
+			slots <- struct{}{}
+			defer func() { <-slots }()
 			t0 := time.Now()
 			outs[2*i] = ledgerWorker(cfg, nScen, ls, -1)
 			outs[2*i].extras["wall_s"] = time.Since(t0).Seconds()
 		}(i, cfg)
 		go func(i int, cfg childCfg) {
 			defer wg.Done()
+			slots <- struct{}{}
+			defer func() { <-slots }()
 			t0 := time.Now()
 			convs := genBlast(hx.NewRand(bs), cfg, ctx.Thorough)
 			outs[2*i+1] = blastWorker(cfg, convs, 48)
